@@ -6,6 +6,12 @@ import os
 
 ROOT = os.path.dirname(os.path.dirname(os.path.abspath(__file__)))
 NOTES = {
+    "C03-r9-1": "missed at first (1-bit geometries had at most 4 components, a pixel never spanned two bytes); caught after a quarter of the 1-bit geometries have 16/24/32 components",
+    "C15-r9-1": "missed at first (the numbered-files family painted the name once into a gap-free run); caught after the numbered_gap family: Run, Run.0..Run.(n-1), Run.(n+1), Run.(n+3) exist and the name is painted three times",
+    "C06-r9-1": "an embedded Type 1 program's overrides written into the shared StandardEncoding table: the font that carries them is reported correctly, later fonts in the process are not - a history matter, silent in C06 (one font per process state), caught by C12 (history_dependence:fp_text)",
+    "C01-r9-1": "the same slip as C14-r8-1 (form feed dropped from the white space stripped inside hex strings), here judged by value",
+    "C14-r9-1": "the same slip as C14-r8-1, written with bytes.translate",
+    "C04-r9-1": "the same slip as C04-r8-2, found independently by a second seeder",
     "C17-r9-1": "missed at first (the key strings of name-tree leaves were always written directly); caught after 25% of the name trees write them as indirect objects (all, or 40% of the keys)",
     "C05-r9-1": "the range form of /W2 under a vertical CMap: C05 has no vertical fonts; a CID-font metrics matter caught by C07 (adv:adv_v)",
     "C02-r9-1": "the same slip as C02-r8-1, found independently by a second seeder",
